@@ -1,4 +1,25 @@
-"""C13 worker: operation histories on dimod.variables.Variables."""
+"""C13 worker: operation histories on dimod.variables.Variables.
+
+Coverage map (clause of the property -> stream that reaches it):
+  appends, explicit / auto label / permissive ......... step "append" (label None = auto), "index_perm" (index(v, permissive=True))
+  extends ............................................. step "extend" (argument passed as list / tuple / one-shot generator / Variables
+                                                        object), "extend_range" (a range object, also with start != 0, negative step, empty)
+  pops, removals, clears .............................. steps "pop", "remove", "clear"
+  partial / swapping / cyclic / merging relabels ...... step "relabel" (cycle, reversed, random targets incl. existing labels and absent keys;
+                                                        a third of the random targets are drawn from the labels currently held, so
+                                                        integer labels sitting at their own index - stored implicitly - are hit often)
+  relabel-as-integers ................................. step "relabel_ints" (the returned mapping must restore the labels)
+  copies and pickling ................................. step "fork": the history CONTINUES on copy() / copy.copy / deepcopy / pickle round
+                                                        trip / Variables(v) (same three fields, Coq OCopy) or on Variables(list(v)) /
+                                                        Variables(generator) / v[:] (rebuilt, Coq OCtor); the abandoned objects are kept and
+                                                        must still show their old snapshot after every later call (no aliasing)
+  construction ........................................ case key "ctor": labels appended one by one (legacy cases), Variables(list),
+                                                        Variables(generator), Variables(Variables(list)), Variables(range(a, b, s)) incl. the
+                                                        fast path range(n) with n < 0, n = 0; the state right after construction is compared
+  len, iteration, indexing, slicing, index, count,
+  membership with numeric aliases, equality ........... after every step (probe alphabet with 1.0 / np.int64 aliases, 3-6 random slice probes)
+  integer labels that differ from their position ...... alphabet holds 0..6, 9, -1, -2, 2**40, 2**61-1; histories shuffle them by relabel/remove
+"""
 import copy
 import pickle
 import numpy as np
@@ -87,19 +108,39 @@ def gen_case(rng, tier):
     return gen_case0(rng, tier)
 
 
+FORKS = ["copy", "copy_mod", "deepcopy", "pickle", "ctor_vars", "rebuild_list", "rebuild_iter", "slice_all"]
+
+
+def rand_range(rng):
+    r = rng.random()
+    if r < 0.55:
+        return [0, rng.choice([0, 1, 2, 3, 4, 6, -1, -3]), 1]            # the constructor's fast path
+    return [rng.randint(-2, 3), rng.randint(-3, 7), rng.choice([1, 1, 2, -1, -2, 3])]
+
+
 def gen_case0(rng, tier):
     n0 = rng.randint(0, 6)
     init = []
     for _ in range(n0):
         init.append(rand_label(rng))
+    r = rng.random()
+    ctor = "append" if r < 0.4 else "list" if r < 0.55 else "iter" if r < 0.65 else "vars" if r < 0.75 else "range"
+    if ctor == "range":
+        init = {"range": rand_range(rng)}
     steps = []
-    cur_guess = [dec(x) for x in init]   # rough tracking only to bias choices toward valid ops
     for _ in range(rng.randint(1, 14 if tier == "quick" else 40)):
         r = rng.random()
-        if r < 0.22:
+        if r < 0.06:
+            steps.append(["fork", rng.choice(FORKS)])
+        elif r < 0.09:
+            steps.append(["index_perm", rand_label(rng)])
+        elif r < 0.12:
+            steps.append(["extend_range", rand_range(rng), rng.random() < 0.6])
+        elif r < 0.22:
             steps.append(["append", rand_label(rng) if rng.random() < 0.75 else None, rng.random() < 0.4])
         elif r < 0.30:
-            steps.append(["extend", [rand_label(rng) for _ in range(rng.randint(0, 3))], rng.random() < 0.6])
+            steps.append(["extend", [rand_label(rng) for _ in range(rng.randint(0, 3))], rng.random() < 0.6,
+                          rng.choice(["list", "tuple", "iter", "vars"])])
         elif r < 0.40:
             steps.append(["pop"])
         elif r < 0.70:
@@ -111,8 +152,14 @@ def gen_case0(rng, tier):
                 vals = keys[1:] + keys[:1]          # cycle / swap
             elif mode < 0.5:
                 vals = list(reversed(keys))
-            else:
+            elif mode < 0.8:
                 vals = [rand_label(rng) for _ in range(k)]
+            else:
+                # {"cur": i}: the label currently at position i (mod len) - resolved when the case runs; reaches existing labels
+                # of every storage shape (integers at their own index, displaced integers, strings) as relabel targets / keys
+                vals = [{"cur": rng.randint(0, 7)} for _ in range(k)]
+                if rng.random() < 0.5:
+                    keys = [{"cur": rng.randint(0, 7)} for _ in range(k)]
             steps.append(["relabel", [[a, b] for a, b in zip(keys, vals)]])
         elif r < 0.76:
             steps.append(["relabel_ints"])
@@ -120,7 +167,7 @@ def gen_case0(rng, tier):
             steps.append(["remove", rand_label(rng)])
         else:
             steps.append(["clear"])
-    return {"init": init, "steps": steps, "slices": rand_slices(rng)}
+    return {"init": init, "ctor": ctor, "steps": steps, "slices": rand_slices(rng)}
 
 
 DEFAULT_SLICES = [[1, None, None], [None, 2, None], [None, None, 2], [None, -1, None], [None, None, -1], [-2, 9, None]]
@@ -171,14 +218,38 @@ def run_case(c):
 def run_case0(c, mix):
     A = Atoms()
     probes = list(ALPHABET) + [1.0, np.int64(3), 7]
-    v = Variables()
+    ctor = c.get("ctor", "append")
     init = []
-    for j in c["init"]:
-        l = dec(j)
-        v._append(l, permissive=True)
-        init.append(l)
+    first = None                      # (Coq op, label) of the construction when it is not the legacy append loop
+    if isinstance(c["init"], dict):
+        a, b, st = c["init"]["range"]
+        v = Variables(range(a, b, st))
+        # the model dispatches like cyVariables.__init__ (fast path condition generated from the source)
+        first = f"(ORangeCtor {cz(a)} {cz(b)} {cz(st)})"
+        if list(v) != list(range(a, b, st)):
+            return {"py_fail": f"Variables(range({a}, {b}, {st})) holds {list(v)!r}", "features": {"op": "ctor_range"}}
+    elif ctor == "append":
+        v = Variables()
+        for j in c["init"]:
+            l = dec(j)
+            v._append(l, permissive=True)
+            init.append(l)
+    else:
+        ls = [dec(j) for j in c["init"]]
+        if ctor == "list":
+            v = Variables(ls)
+        elif ctor == "iter":
+            v = Variables(x for x in ls)
+        else:
+            v = Variables(Variables(ls))
+        first = f"(OCtor {clist([A.lab(l) for l in ls])})"
     py_fail = None
     slices = c.get("slices", DEFAULT_SLICES)
+    olds = []                         # (object, snapshot, how) of objects the history has left behind
+
+    def snapshot(w):
+        st = w.__reduce__()[2][:3]
+        return (list(w), repr(sorted(map(repr, st[0].items()))), repr(sorted(map(repr, st[1].items()))), st[2])
 
     def cslice(q):
         return "(%s, %s, %s)" % tuple("None" if x is None else f"(Some {cz(int(x))})" for x in q)
@@ -217,18 +288,82 @@ def run_case0(c, mix):
     steps = []
     nontrivial = False
     kinds = set()
+    if first is not None:
+        try:
+            s0, _ = seen(True, None)
+        except AssertionError as e:
+            return {"py_fail": "internal dicts corrupted: " + str(e), "features": {"op": "ctor", "np_tuple_mix": mix}}
+        steps.append(cpair(first, s0))
+        kinds.add("ctor_" + ("range" if isinstance(c["init"], dict) else ctor))
+
+    def cur_label(j):
+        """{"cur": i} -> the label currently at position i mod len (a fixed fresh label when empty)"""
+        if isinstance(j, dict) and "cur" in j:
+            n = len(v)
+            return v[j["cur"] % n] if n else 'd'
+        return dec(j)
+
     for st in c["steps"]:
         name = st[0]
         ok, ret = True, None
         try:
-            if name == "append":
+            if name == "fork":
+                how = st[1]
+                old = v
+                if how == "copy":
+                    v = old.copy()
+                elif how == "copy_mod":
+                    v = copy.copy(old)
+                elif how == "deepcopy":
+                    v = copy.deepcopy(old)
+                elif how == "pickle":
+                    v = pickle.loads(pickle.dumps(old))
+                elif how == "ctor_vars":
+                    v = Variables(old)
+                elif how == "rebuild_list":
+                    v = Variables(list(old))
+                elif how == "rebuild_iter":
+                    v = Variables(x for x in list(old))
+                else:
+                    v = old[:]
+                if how in ("copy", "copy_mod", "deepcopy", "pickle", "ctor_vars"):
+                    coqop = "OCopy"
+                else:
+                    coqop = f"(OCtor {clist([A.lab(l) for l in list(old)])})"
+                if v is old or type(v) is not Variables:
+                    py_fail = py_fail or f"{how} returned {'the same object' if v is old else type(v).__name__}"
+                olds.append((old, snapshot(old), how))
+                del olds[:-3]
+            elif name == "index_perm":
+                l = dec(st[1])
+                coqop = f"(OAppend {copt(A.lab(l))} true)"
+                i = v.index(l, permissive=True)
+                ret = l
+                lst_now = list(v)
+                if not (0 <= i < len(lst_now)) or A.lab(lst_now[i]) != A.lab(l):
+                    py_fail = py_fail or f"index({l!r}, permissive=True) returned {i} but the labels are {lst_now!r}"
+            elif name == "extend_range":
+                a, b, stp = st[1]
+                coqop = f"(OExtend {clist([A.lab(l) for l in range(a, b, stp)])} {cbool(st[2])})"
+                v._extend(range(a, b, stp), permissive=st[2])
+            elif name == "append":
                 l = None if st[1] is None else dec(st[1])
                 coqop = f"(OAppend {copt(A.lab(l)) if l is not None else 'None'} {cbool(st[2])})"
                 ret = v._append(l, permissive=st[2])
             elif name == "extend":
                 ls = [dec(x) for x in st[1]]
                 coqop = f"(OExtend {clist([A.lab(l) for l in ls])} {cbool(st[2])})"
-                v._extend(ls, permissive=st[2])
+                form = st[3] if len(st) > 3 else "list"
+                if form == "vars":
+                    try:
+                        arg = Variables(ls)
+                        if [repr(x) for x in arg] != [repr(x) for x in ls]:
+                            arg = ls                   # duplicates among the labels: keep the plain list
+                    except ValueError:
+                        arg = ls
+                else:
+                    arg = tuple(ls) if form == "tuple" else (x for x in ls) if form == "iter" else ls
+                v._extend(arg, permissive=st[2])
             elif name == "pop":
                 coqop = "OPop"
                 ret = v._pop()
@@ -236,7 +371,7 @@ def run_case0(c, mix):
                 pairs = []
                 seenk = []
                 for a, b in st[1]:
-                    a, b = dec(a), dec(b)
+                    a, b = cur_label(a), cur_label(b)
                     if any(safe_eq(a, k) for k in seenk):
                         continue
                     seenk.append(a)
@@ -266,8 +401,15 @@ def run_case0(c, mix):
             return {"py_fail": "internal dicts corrupted: " + str(e), "features": {"op": name, "np_tuple_mix": mix}}
         kinds.add(name)
         steps.append(cpair(coqop, s))
-        if ok and name != "clear":
+        if ok and name not in ("clear", "fork"):
             nontrivial = True
+        # objects left behind by a fork must not be affected by what happens to the object the history continued on
+        if py_fail is None:
+            for old, snap, how in olds:
+                if snapshot(old) != snap:
+                    py_fail = (f"the object left behind by {how} changed from {snap[0]!r} to {list(old)!r} when {name} was called "
+                               f"on the other object")
+                    break
         # list-like behaviour of the public API against the sequence it shows
         if py_fail is None:
             if len(v) != len(lst):
@@ -298,7 +440,8 @@ def run_case0(c, mix):
     coq = "(mkCase %s %s %s %s)" % (clist([A.lab(l) for l in init]), clist([A.lab(p) for p in probes]),
                                    clist([cslice(q) for q in slices]), clist(steps))
     return {"coq": coq, "py_fail": py_fail, "nontrivial": nontrivial,
-            "features": {"ops": sorted(kinds), "np_tuple_mix": mix}}
+            "features": {"ops": sorted(kinds), "np_tuple_mix": mix},
+            "observed": {"ops": sorted(kinds)}}
 
 
 if __name__ == "__main__":
